@@ -64,6 +64,8 @@ type FuncVerifier struct {
 	locks    *lockCfg
 	allows   []frameAllow
 	allowsDone bool
+	writeAllows []frameAllow
+	writesDone  bool
 	mergeMode bool
 	fork     *forkOut
 	ccMode   int
